@@ -30,6 +30,9 @@ IO = "src/engine/engine_io.c"
 SU = "src/engine/engine_support.c"
 IN = "src/engine/engine_inverse.c"
 
+SEN = "src/engine/engine_sensor.c"
+mut("c01-sensor-hold-not-recopied", "C01", SEN, "    } else {\n      // interval condition not satisfied: read from buffer\n      int interp = m->sensor_history[2*i+1];\n      const mjtNum* ptr = mj_readSensor(m, d, i, d->time, sensordata, interp);\n      if (ptr) mju_copy(sensordata, ptr, dim);\n    }\n    return;",
+    "    }\n    return;", "rule=R-SENSOR-WRITTEN construct=compute_or_read_sensor:sensordata")
 # ---- C19 / R-FRAME
 mut("c19-drop-free", "C19", FW, "  mj_advance(m, d, d->act_dot, qacc, NULL);\n\n  mj_freeStack(d);\n\n  TM_END(mjTIMER_ADVANCE);\n}\n\n\n// Euler integrator, semi-implicit in velocity\n",
     "  mj_advance(m, d, d->act_dot, qacc, NULL);\n\n  TM_END(mjTIMER_ADVANCE);\n}\n\n\n// Euler integrator, semi-implicit in velocity\n", "rule=R-FRAME construct=mj_EulerSkip")
